@@ -59,6 +59,27 @@ let str_res = function
   | Ok (k, a) -> "ok " ^ hex_of_bytes k ^ " " ^ hex_of_bytes a
   | Err -> "err" | Panic -> "panic"
 
+(* one KeyStore history: ops are ':'-separated tokens, passphrases in hex *)
+let parse_op (t : string) : ks_op =
+  match String.split_on_char ':' t with
+  | ["new"; p] -> OCreate (bytes_of_hex p)
+  | ["tun"; i; p; d] -> OTimedUnlock (nat_of_int (int_of_string i), bytes_of_hex p, n_of_string d)
+  | ["lock"; i] -> OLock (nat_of_int (int_of_string i))
+  | ["upd"; i; o; n] -> OUpdate (nat_of_int (int_of_string i), bytes_of_hex o, bytes_of_hex n)
+  | ["exp"; i; p] -> OExport (nat_of_int (int_of_string i), bytes_of_hex p)
+  | ["del"; i; p] -> ODelete (nat_of_int (int_of_string i), bytes_of_hex p)
+  | ["sig"; i] -> OSign (nat_of_int (int_of_string i))
+  | ["swp"; i; p] -> OSignWithPass (nat_of_int (int_of_string i), bytes_of_hex p)
+  | ["wait"; d] -> OWait (n_of_string d)
+  | _ -> failwith ("op syntax " ^ t)
+
+let ks_history (ops : string list) : string =
+  let (_, outs) = List.fold_left (fun (s, acc) t ->
+      let (s', r) = ks_step s (parse_op t) in
+      let locks = String.concat "" (List.map (fun a -> if is_unlocked s'.ks_now a then "u" else "l") s'.ks_accts) in
+      (s', ((if r then "ok" else "err") ^ ":" ^ locks) :: acc)) (ks_init, []) ops in
+  String.concat " " (List.rev outs)
+
 let handle (toks : string list) : string =
   match toks with
   | ["keccak"; h] -> hex_of_bytes (keccak256 (bytes_of_hex h))
@@ -76,6 +97,7 @@ let handle (toks : string list) : string =
              (bytes_of_hex addr) (bytes_of_hex id) (bytes_of_hex pass) (bytes_of_hex salt) (bytes_of_hex iv)
              (z_of_string n) (z_of_string p) with
      | Ok f -> "ok " ^ render_keyfile f | Err -> "err" | Panic -> "panic")
+  | "ks" :: ops -> ks_history ops
   | _ -> "driver-error unknown-command"
 
 let () = self_test b2n; serve handle
